@@ -37,10 +37,11 @@ CLAIMED = {
              "<= max_factor_per_second; in adaptive mode (increase_factor_per_second != 0) the magnitude is >= min_factor_per_second (min > max is an "
              "error), equals the stored factor clamped to [min, max] and the payer follows its sign; in non-adaptive mode the larger side pays and "
              "nothing is stored. At T=u8/DECIMALS=1 (exponent 0..2*UNIT) the whole function agrees with an exact reference including the exact failure "
-             "condition (increase / decrease / decrease-to-signum / no-change branches, both caps). One real execute() from an arbitrary funding state "
-             "at u8: the four funding-amount-per-size and four claimable-funding-amount-per-size indices never decrease (also when execute fails "
-             "midway), move by exactly the reported unsigned deltas, only one side pays and only the other receives, nothing is charged with an empty "
-             "side, and no other market state is touched - so the indices are monotone over any history. pending_funding_fees (u8 all values; u16 with "
+             "condition (increase / decrease / decrease-to-signum / no-change branches, both caps). Thorough tier only (10 min, too slow for quick): one real "
+             "execute() from an arbitrary funding state at u8 - the four funding-amount-per-size and four claimable-funding-amount-per-size indices never "
+             "decrease (also when execute fails midway), move by exactly the reported unsigned deltas, only one side pays and only the other receives, "
+             "nothing is charged with an empty side, no other market state is touched (one inductive step, so the indices are monotone over any history). "
+             "pending_funding_fees (u8 all values; u16 with "
              "the adjustment fixed to 10): amounts are ceil (fee) / floor (claimables) of size*index_diff/(adjustment*UNIT), and a position index ahead "
              "of the market index is an error, never a wrapped value.",
         note=_TRUST + "By-design deviation from the literal text, confirmed by the solver and excluded from the hold harnesses: in non-adaptive mode "
